@@ -30,6 +30,11 @@ PY = "/venv/bin/python"
 BASE = "f065056"  # pinned snapshot the anchors' line numbers refer to
 
 
+EXTRA = {"linear_optimal_transport": ["C08", "C02"], "ngram_vectorizer": ["C06", "C02"], "skip_gram": ["C06", "C02"], "mixed_gram": ["C02"],
+         "preprocessing": ["C05", "C14"], "_window_kernels": ["C03"], "base_cooccurrence": ["C03", "C02"], "coo_utils": ["C04", "C03"],
+         "distances": ["C18"], "info_weight": ["C17", "C02"], "row_desnoise": ["C02"], "tree_token": ["C15"], "_vectorizers": ["C20", "C02"], "kde": ["C20"]}
+
+
 def sh(cmd, **kw):
     return subprocess.run(cmd, capture_output=True, text=True, **kw)
 
@@ -296,8 +301,12 @@ def cmd_run(a):
                 rec["verdict"] = "does-not-import"
             else:
                 order = [own] + [p for p in m["props"] if p != own]
+                # checks whose workload reaches this file although the property is not anchored on this very line
+                for key, extra in EXTRA.items():
+                    if key in m["file"]:
+                        order += [p for p in extra if p not in order]
                 caught = None
-                for p in order[:4]:
+                for p in order[:5]:
                     r = run_check(p, wt, base)
                     rec["checks"][p] = r
                     if r["exit"] == 1:
